@@ -157,6 +157,22 @@ def leading_zero_x_scalars():
     return out
 
 
+def high_coordinate_points():
+    """Committed corpus of curve points with a coordinate in [n, p) (group order <= coordinate < field prime; about 2^-128 of
+    all points - a key anyone can construct and hand over as a public key, never met by sampling); re-certified at load."""
+    import json
+    import os
+    p = os.path.join(os.path.dirname(os.path.dirname(os.path.abspath(__file__))), "corpus", "high_coordinate_points.json")
+    if not os.path.exists(p):
+        return []
+    out = []
+    for xs, ys in json.load(open(p))["points"]:
+        pt = (int(xs, 16), int(ys, 16))
+        if secp.on_curve(pt) and (pt[0] >= N or pt[1] >= N):
+            out.append(pt)
+    return out
+
+
 def leading_zero_y_scalars(limit=16):
     """Committed corpus of (small) scalars whose public key Y-coordinate has a leading zero byte - only the UNCOMPRESSED
     SEC form shows it; property re-verified at load by the own curve."""
